@@ -728,6 +728,9 @@ pub enum COp {
   /// child c finishes on its own (its is_closed() becomes true)
   CloseChild(usize),
   Retain(usize),
+  /// append a child whose own `unsubscribe()` appends a further subscription to (a clone of) the same composite:
+  /// an addition made from inside the composite's teardown
+  AppendReentrant,
 }
 
 // ------------------------------------------------------ share / publish histories (C11)
